@@ -171,3 +171,23 @@ Theorem C01_assert_failure_sound :
     path v -> In (true, k) (assert_alternatives V chk c) -> k v = true -> c v = false.
 Proof. exact assert_failure_sound. Qed.
 Print Assumptions C01_assert_failure_sound.
+
+(* ------------------------------------------------------------------------------------------
+   The instruction dispatch of SEVM.run (Gen/GenDispatch.v, regenerated from the source: which word
+   method, applied to which stack operands in which order) agrees with the reference interpreter's
+   decoding and semantics for every arithmetic, comparison and bitwise opcode and all operand values
+   (the meaning of the methods is Spec/DispatchSpec.v; that the methods compute it is C06). *)
+From HV Require Import Spec.DispatchSpec Gen.GenDispatch Proofs.DispatchProofs.
+
+Theorem C01_dispatch_correct : forall opc, 0 <= opc < 256 ->
+  match decode_op opc with
+  | IBin b => exists e, dispatch opc = Some e /\
+                forall x y, (let '(m, r, args) := e in meth_sem m (nth r [x; y] 0) (map (fun n => nth n [x; y] 0) args)) = bop_sem b x y
+  | IUn u => exists e, dispatch opc = Some e /\
+                forall x, (let '(m, r, args) := e in meth_sem m (nth r [x] 0) (map (fun n => nth n [x] 0) args)) = uop_sem u x
+  | ITern t => exists e, dispatch opc = Some e /\
+                forall x y z, (let '(m, r, args) := e in meth_sem m (nth r [x; y; z] 0) (map (fun n => nth n [x; y; z] 0) args)) = top_sem t x y z
+  | _ => dispatch opc = None
+  end.
+Proof. exact dispatch_correct. Qed.
+Print Assumptions C01_dispatch_correct.
